@@ -117,6 +117,15 @@ let inv_cdf (p : float) : float =
     0.0 +. (x *. 1.0)
   end
 
+(* ---------- optional log of the libm calls (driver --libm): lets the harness re-evaluate a whole rate / predict call
+   inside Coq on Flocq's binary64 with the libm functions given as the finite tables observed here ---------- *)
+let libm_log : Buffer.t option ref = ref None
+let logcall (tag : string) (x : float) (r : float) : float =
+  (match !libm_log with
+   | None -> ()
+   | Some b -> Buffer.add_string b (Printf.sprintf "[\"%s\",\"%Lx\",\"%Lx\"]," tag (Int64.bits_of_float x) (Int64.bits_of_float r)));
+  r
+
 (* ---------- the float dictionary ---------- *)
 let fnum : float num = {
   fadd = ( +. ); fsub = ( -. ); fmul = ( *. );
@@ -125,12 +134,12 @@ let fnum : float num = {
   fsqrt = (fun x -> if x < 0.0 then raise Arith else sqrt x);
   fexp = (fun x -> let r = exp x in
                    if Float.is_integer x || true then
-                     (if r = Float.infinity && Float.abs x <> Float.infinity then raise Arith else r)
+                     (if r = Float.infinity && Float.abs x <> Float.infinity then raise Arith else logcall "e" x r)
                    else r);
-  ferfc = Float.erfc;
+  ferfc = (fun x -> logcall "c" x (Float.erfc x));
   fpow2 = (fun x -> let r = x ** 2.0 in
-                    if r = Float.infinity && Float.abs x <> Float.infinity then raise Arith else r);
-  ficdf = inv_cdf;
+                    if r = Float.infinity && Float.abs x <> Float.infinity then raise Arith else logcall "p" x r);
+  ficdf = (fun x -> logcall "i" x (inv_cdf x));
   fltb = (fun a b -> a < b); fleb = (fun a b -> a <= b); feqb = (fun a b -> a = b);
   ffinite = Float.is_finite;
   fofZ = float_of_z;
@@ -355,14 +364,22 @@ let handle (line : string) : string =
   | s -> raise (Bad ("op " ^ s))
 
 let () =
+  let want_libm = Array.length Sys.argv > 1 && Sys.argv.(1) = "--libm" in
   try
     while true do
       let line = input_line stdin in
+      if want_libm then libm_log := Some (Buffer.create 256);
       let out =
         try handle line with
         | Arith -> "{\"exc\":\"Arith\"}"
         | Stack_overflow -> "{\"exc\":\"DriverStackOverflow\"}"
         | Bad m -> Printf.sprintf "{\"exc\":\"DriverBad\",\"msg\":\"%s\"}" (String.escaped m) in
+      let out = (match !libm_log with
+          | Some b when String.length out > 0 && out.[String.length out - 1] = '}' ->
+              let l = Buffer.contents b in
+              let l = if l = "" then "" else String.sub l 0 (String.length l - 1) in
+              String.sub out 0 (String.length out - 1) ^ ",\"libm\":[" ^ l ^ "]}"
+          | _ -> out) in
       print_string out; print_char '\n'
     done
   with End_of_file -> ()
